@@ -211,10 +211,10 @@ def corrupt_merchants(top, secs, c):
         props[pi] = (['matchh', 'categroy', 'tag', 'descr', 'lett'][c['expr'] % 5], props[pi][1])
         mark = pi
     elif kind == 'bad_let':
-        props.insert(0, ('let', ['= 5', '1x = 2', 'x == ', 'no equals sign', 'a b = 1'][c['expr'] % 5]))
+        props.insert(0, ('let', ['= 5', '1x = 2', 'x == ', 'no equals sign', 'a b = 1', 'field.big = amount > 100', 'txn.x = 1', 'a.b = 2'][c['expr'] % 8]))
         mark = 0
     elif kind == 'bad_field':
-        props.append(('field', ['= 5', '9f = 2', 'just text', 'a-b = 1'][c['expr'] % 4]))
+        props.append(('field', ['= 5', '9f = 2', 'just text', 'a-b = 1', 'field.memo = "x"', 'field.note = description', 'a.b = 1'][c['expr'] % 7]))
         mark = len(props) - 1
     elif kind == 'bad_priority':
         props.append(('priority', ['high', '1.5', '', '10 20'][c['expr'] % 4]))
